@@ -664,6 +664,8 @@ THEOREMS.update({
     "C20_terminates_ex": "example",
     "C20_unused_iff": "full",
     "C20_unused_set": "full",
+    "C20_verdict_spec": "full",
+    "C20_verdict_spec_ex2": "example",
     "C20_verdict_spec_partial": "partial",
     "C20_decisive_tolerance": "full",
     "C20_verdict_spec_ex": "example",
